@@ -21,9 +21,8 @@ allvars == <<vars, tvars>>
 
 D == "d1"
 L == "l1"
-TPipes == {"p1", "p2", "p3", "p4", "p5", "p6", "p7", "p8", "p9", "p10", "p11", "p12",
-           "p13", "p14", "p15", "p16", "p17", "p18", "p19", "p20"}
-Threads == {"T1", "T2", "T3", "T4", "T5", "T6", "T7", "T8", "T9", "T10", "T11", "T12"}
+TPipes == PipeNames
+Threads == ThreadNames
 
 e == Log[l]
 
